@@ -67,10 +67,10 @@ theorem qLoop_ge (bs : Nat) (adj : Int) : ∀ (text : List Char) (offset : Int) 
 
 theorem quoteStrip_sCount (l : BLine) : 0 ≤ (quoteStrip l).1.sCount := by
   simp only [quoteStrip]
-  split <;> (try split) <;> (simp only []; first
-    | (have := qLoop_ge l.bs 0 (List.drop 1 (List.drop 1 l.body)) ((l.sCount : Int) + 2) 0; omega)
-    | (have := qLoop_ge l.bs 1 (List.drop 0 (List.drop 1 l.body)) ((l.sCount : Int) + 1) 0; omega)
-    | (have := qLoop_ge l.bs 0 (List.drop 0 (List.drop 1 l.body)) ((l.sCount : Int) + 1) 0; omega))
+  have := qLoop_ge l.bs (quoteHead l.bs l.sCount (List.drop 1 l.body)).2.2.1
+    (List.drop (quoteHead l.bs l.sCount (List.drop 1 l.body)).1 (List.drop 1 l.body))
+    (quoteHead l.bs l.sCount (List.drop 1 l.body)).2.1 0
+  omega
 
 /-! ### the restore loop -/
 
